@@ -328,3 +328,75 @@ pub fn show(b: &[u8]) -> String {
     }
     s
 }
+
+// ---------------------------------------------------------------------------------------
+// process isolation: run a closure in a forked child so that every execution starts from
+// the same initial process state (lazily initialised statics, caches, environment).
+
+/// Ok(bytes written by the child) | Err(description of how the child died)
+pub fn fork_run(f: impl FnOnce() -> Vec<u8>) -> Result<Vec<u8>, String> {
+    unsafe {
+        let mut fds = [0i32; 2];
+        if libc::pipe(fds.as_mut_ptr()) != 0 {
+            return Err("pipe failed".into());
+        }
+        let pid = libc::fork();
+        if pid < 0 {
+            libc::close(fds[0]);
+            libc::close(fds[1]);
+            return Err("fork failed".into());
+        }
+        if pid == 0 {
+            libc::close(fds[0]);
+            let out = match std::panic::catch_unwind(std::panic::AssertUnwindSafe(f)) {
+                Ok(v) => v,
+                Err(_) => b"\0CHILD-PANIC".to_vec(),
+            };
+            let mut off = 0usize;
+            while off < out.len() {
+                let n = libc::write(fds[1], out[off..].as_ptr() as *const libc::c_void, out.len() - off);
+                if n <= 0 {
+                    break;
+                }
+                off += n as usize;
+            }
+            libc::close(fds[1]);
+            libc::_exit(0);
+        }
+        libc::close(fds[1]);
+        let mut out = Vec::new();
+        let mut buf = [0u8; 65536];
+        loop {
+            let n = libc::read(fds[0], buf.as_mut_ptr() as *mut libc::c_void, buf.len());
+            if n > 0 {
+                out.extend_from_slice(&buf[..n as usize]);
+            } else if n == 0 {
+                break;
+            } else {
+                let e = std::io::Error::last_os_error();
+                if e.kind() == std::io::ErrorKind::Interrupted {
+                    continue;
+                }
+                break;
+            }
+        }
+        libc::close(fds[0]);
+        let mut status = 0i32;
+        loop {
+            let r = libc::waitpid(pid, &mut status, 0);
+            if r == pid {
+                break;
+            }
+            if r < 0 && std::io::Error::last_os_error().kind() != std::io::ErrorKind::Interrupted {
+                break;
+            }
+        }
+        if libc::WIFSIGNALED(status) {
+            return Err(format!("child killed by signal {}", libc::WTERMSIG(status)));
+        }
+        if out == b"\0CHILD-PANIC" {
+            return Err("child panicked outside a guarded call".into());
+        }
+        Ok(out)
+    }
+}
